@@ -23,7 +23,8 @@ element, every path) the inferred unit must equal the unit that dimensional anal
 (spec/array_function_signatures.py): this is exactly the condition under which re-expressing the inputs changes the
 result only by re-expression, and an output that must carry a unit may not be bare. Also decided: units attached to out=
 targets equal the returned unit, views inherit units (__array_finalize__), and the ufunc wrap-up returns a bare array only
-when the unit rule said so."""
+when the unit rule said so.
+(R4, extended) the common-unit block is entered whenever the units differ by value; (R6) every registered ufunc maps to a unit rule of the ufunc's homogeneity type (shared with C04-R1); (R7) handlers with out= label the caller's buffer with the unit of the numbers written into it (shared with C06-R4)."""
 LEVEL_NOTE = """Undecided: the ~110 NumPy functions unyt leaves to NumPy's default implementation (their behaviour is
 NumPy-internal); bit-for-bit covariance under dyadic rescaling; numerical values. Trusted: the signature table (written
 from the NumPy documentation) and that handler parameter names mirror NumPy's (checked by the repository's own
